@@ -54,16 +54,16 @@ var props = map[string]*propSpec{}
 
 func reg(p *propSpec) {
 	if p.QuickRuns == 0 {
-		p.QuickRuns = 400
+		p.QuickRuns = 1000
 	}
 	if p.QuickWall == 0 {
-		p.QuickWall = 75 * time.Second
+		p.QuickWall = 60 * time.Second
 	}
 	if p.ThorRuns == 0 {
-		p.ThorRuns = 20000
+		p.ThorRuns = 120000
 	}
 	if p.ThorWall == 0 {
-		p.ThorWall = 18 * time.Minute
+		p.ThorWall = 15 * time.Minute
 	}
 	if p.RunWall == 0 {
 		p.RunWall = 120 * time.Second
